@@ -5,6 +5,10 @@
 //! those of `c15bin` (see `c15codec.rs`):
 //!   `enc <msg>` → `obs bytes <hex>` + `obs roundtrip <msg> <msg'|error|panic>`;
 //!   `dec cm <hex|->` / `dec rsp <hex|->` → `obs msg <msg>` | `obs error` | `obs panic`
+//!   `dec-must cm|rsp <hex> [<msg>]` → as `dec`; the document is one the property obliges the reader to
+//!   understand (a real encoding with optional members — a cancellation's `trace_context`, a context's
+//!   `deadline` — possibly left out, members reordered, insignificant whitespace added) and `<msg>` is the
+//!   message it stands for; the monitor rejects `obs error` / `obs panic` / another message here
 //! where `<hex>` is the JSON text.
 //!
 //! Generation: real encodings; hand-assembled documents that vary what a conforming peer may vary
@@ -74,6 +78,8 @@ pub enum Op {
     Enc(String),
     DecCm(Vec<u8>),
     DecRsp(Vec<u8>),
+    /// `cm`, document, the message it stands for
+    DecMust(bool, Vec<u8>, Option<String>),
 }
 
 impl Op {
@@ -83,6 +89,8 @@ impl Op {
             ["enc", m] => Some(Op::Enc(m.to_string())),
             ["dec", "cm", h] => Some(Op::DecCm(bytes(h)?)),
             ["dec", "rsp", h] => Some(Op::DecRsp(bytes(h)?)),
+            ["dec-must", k @ ("cm" | "rsp"), h] => Some(Op::DecMust(*k == "cm", bytes(h)?, None)),
+            ["dec-must", k @ ("cm" | "rsp"), h, e] => Some(Op::DecMust(*k == "cm", bytes(h)?, Some(e.to_string()))),
             _ => None,
         }
     }
@@ -91,6 +99,12 @@ impl Op {
             Op::Enc(m) => format!("enc {m}"),
             Op::DecCm(b) => format!("dec cm {}", hex_tok(b)),
             Op::DecRsp(b) => format!("dec rsp {}", hex_tok(b)),
+            Op::DecMust(cm, b, e) => format!(
+                "dec-must {} {}{}",
+                if *cm { "cm" } else { "rsp" },
+                hex_tok(b),
+                e.as_ref().map(|e| format!(" {e}")).unwrap_or_default()
+            ),
         }
     }
 }
@@ -110,11 +124,11 @@ fn exec(out: &mut Out, op: &Op) {
                 out.line(&format!("obs roundtrip {tok} {}", decode_rsp_text(&b)));
             }
         },
-        Op::DecCm(b) => match decode_cm_text(b).as_str() {
+        Op::DecCm(b) | Op::DecMust(true, b, _) => match decode_cm_text(b).as_str() {
             t @ ("panic" | "error") => out.line(&format!("obs {t}")),
             t => out.line(&format!("obs msg {t}")),
         },
-        Op::DecRsp(b) => match decode_rsp_text(b).as_str() {
+        Op::DecRsp(b) | Op::DecMust(false, b, _) => match decode_rsp_text(b).as_str() {
             t @ ("panic" | "error") => out.line(&format!("obs {t}")),
             t => out.line(&format!("obs msg {t}")),
         },
@@ -613,6 +627,90 @@ fn variant_doc(rng: &mut Rng, m: &M, faulty: bool) -> Vec<u8> {
     out
 }
 
+/// A document the reader is obliged to understand, and the message it stands for: the real schema with
+/// the real member names and value forms, where a peer may leave out the members that have a default
+/// (`Cancel.trace_context` → all-zero unsampled, `Context.deadline` → 10 s), write the members of any
+/// object in any order and put whitespace between tokens.  Nothing else is varied.
+fn must_doc(rng: &mut Rng, m: &M) -> (Vec<u8>, Option<String>) {
+    fn key(name: &str) -> Vec<u8> {
+        serde_json::to_vec(name).unwrap()
+    }
+    fn obj(rng: &mut Rng, fields: Vec<(&str, J)>) -> J {
+        let mut kvs: Vec<(Vec<u8>, J)> = fields.into_iter().map(|(k, v)| (key(k), v)).collect();
+        if rng.chance(1, 2) {
+            for i in (1..kvs.len()).rev() {
+                let j = rng.below(i as u64 + 1) as usize;
+                kvs.swap(i, j);
+            }
+        }
+        J::Obj(kvs)
+    }
+    fn n(x: u128) -> J {
+        tok(&x.to_string())
+    }
+    fn st(x: &str) -> J {
+        J::Tok(serde_json::to_vec(x).unwrap())
+    }
+    fn tr(rng: &mut Rng, t: &(u128, u64, bool)) -> J {
+        let bytes = J::Arr(t.0.to_le_bytes().iter().map(|b| n(*b as u128)).collect());
+        let fields = vec![
+            ("trace_id", bytes),
+            ("span_id", n(t.1 as u128)),
+            ("sampling_decision", st(if t.2 { "Sampled" } else { "Unsampled" })),
+        ];
+        obj(rng, fields)
+    }
+    let (j, stands_for) = match m {
+        M::Req { secs, nanos, trace: t, id, body } => {
+            let omit = rng.chance(1, 2);
+            let mut ctx = Vec::new();
+            if !omit {
+                let d = obj(rng, vec![("secs", n(*secs as u128)), ("nanos", n(*nanos as u128))]);
+                ctx.push(("deadline", d));
+            }
+            ctx.push(("trace_context", tr(rng, t)));
+            let ctx = obj(rng, ctx);
+            let req = obj(rng, vec![("context", ctx), ("id", n(*id as u128)), ("message", st(body))]);
+            let m2 = if omit {
+                M::Req { secs: 10, nanos: 0, trace: *t, id: *id, body: body.clone() }
+            } else {
+                m.clone()
+            };
+            (J::Obj(vec![(key("Request"), req)]), Some(m2.text()))
+        }
+        M::Cancel { trace: t, id } => {
+            let omit = rng.chance(1, 2);
+            let mut c = Vec::new();
+            if !omit {
+                c.push(("trace_context", tr(rng, t)));
+            }
+            c.push(("request_id", n(*id as u128)));
+            let c = obj(rng, c);
+            let m2 = if omit { M::Cancel { trace: (0, 0, false), id: *id } } else { m.clone() };
+            (J::Obj(vec![(key("Cancel"), c)]), Some(m2.text()))
+        }
+        M::Ok { id, body } => {
+            let r = J::Obj(vec![(key("Ok"), st(body))]);
+            (obj(rng, vec![("request_id", n(*id as u128)), ("message", r)]), Some(m.text()))
+        }
+        M::Err { id, kind, detail } => {
+            // the number the real writer produces for this kind (what it is read back as is the error-kind
+            // table's business: no expected message here)
+            let real = String::from_utf8(M::Err { id: 0, kind: kind.clone(), detail: String::new() }.real()).unwrap();
+            let k: u128 = real.split("\"kind\":").nth(1).unwrap().split(',').next().unwrap().parse().unwrap();
+            let e = obj(rng, vec![("kind", n(k)), ("detail", st(detail))]);
+            let r = J::Obj(vec![(key("Err"), e)]);
+            (obj(rng, vec![("request_id", n(*id as u128)), ("message", r)]), None)
+        }
+    };
+    let mut out = Vec::new();
+    let w = rng.chance(1, 2);
+    ws(rng, w, &mut out);
+    write(rng, &j, w, &mut out);
+    ws(rng, w, &mut out);
+    (out, stands_for)
+}
+
 /// A structure-unaware mutation of a byte string.
 fn mutate(rng: &mut Rng, mut b: Vec<u8>) -> Vec<u8> {
     const INTERESTING: &[u8] = b"\"\\{}[],: \n-+.eE0123456789u/ntrfbx\x00\x1f\x7f\x80\xc3\xff";
@@ -683,8 +781,12 @@ fn gen_op(rng: &mut Rng) -> Op {
         let cm = rng.chance(1, 2);
         let m = random_m(rng, cm);
         let dec = |cm: bool, b: Vec<u8>| if cm { Op::DecCm(b) } else { Op::DecRsp(b) };
-        let op = match rng.weighted(&[30, 10, 22, 12, 16, 5, 3, 2]) {
+        let op = match rng.weighted(&[30, 10, 22, 12, 16, 5, 3, 2, 14]) {
             0 => Op::Enc(m.text()),
+            8 => {
+                let (b, e) = must_doc(rng, &m);
+                Op::DecMust(cm, b, e)
+            }
             1 => dec(cm, m.real()),
             2 => dec(cm, variant_doc(rng, &m, false)),
             3 => dec(cm, variant_doc(rng, &m, true)),
@@ -707,7 +809,7 @@ fn gen_op(rng: &mut Rng) -> Op {
             }
         };
         match &op {
-            Op::DecCm(b) | Op::DecRsp(b) if in_band(b) => continue,
+            Op::DecCm(b) | Op::DecRsp(b) | Op::DecMust(_, b, _) if in_band(b) => continue,
             _ => return op,
         }
     }
@@ -890,6 +992,29 @@ fn boundary_ops() -> Vec<Op> {
     ];
     for d in rsp {
         ops.push(Op::DecRsp(d.as_bytes().to_vec()));
+    }
+    // documents the property obliges the reader to understand, with the message each stands for
+    let tr_text = format!("{}:3:S", 1u128 | (255u128 << 120));
+    let hi = hex("hi".as_bytes());
+    let must_cm: Vec<(String, String)> = vec![
+        (r#"{"Cancel":{"request_id":7}}"#.into(), "cancel:0:0:U:7".into()),
+        (" {\"Cancel\" :\t{ \"request_id\" : 18446744073709551615 } }\r\n".into(), format!("cancel:0:0:U:{}", u64::MAX)),
+        (format!(r#"{{"Cancel":{{"request_id":7,"trace_context":{TR}}}}}"#), format!("cancel:{tr_text}:7")),
+        (format!(r#"{{"Request":{{"context":{{"trace_context":{TR}}},"id":9,"message":"hi"}}}}"#), format!("req:10:0:{tr_text}:9:{hi}")),
+        (format!(r#"{{"Request":{{"message":"hi","id":9,"context":{{"trace_context":{TR}}}}}}}"#), format!("req:10:0:{tr_text}:9:{hi}")),
+        (format!(r#"{{"Request":{{"message":"hi","id":9,"context":{{"trace_context":{TR},"deadline":{{"nanos":7,"secs":5}}}}}}}}"#), format!("req:5:7:{tr_text}:9:{hi}")),
+        (format!("\n{{ \"Request\" : {{ \"context\" : {{ \"trace_context\" : {TR} }} , \"id\" : 9 , \"message\" : \"hi\" }} }} "), format!("req:10:0:{tr_text}:9:{hi}")),
+    ];
+    for (d, e) in must_cm {
+        ops.push(Op::DecMust(true, d.into_bytes(), Some(e)));
+    }
+    let must_rsp: Vec<(&str, &str)> = vec![
+        (r#"{"message":{"Ok":"body"},"request_id":1}"#, "ok:1:626f6479"),
+        ("\t{ \"request_id\" : 1 , \"message\" : { \"Ok\" : \"body\" } }\n", "ok:1:626f6479"),
+        (r#"{"message":{"Err":{"detail":"d","kind":1}},"request_id":1}"#, "err:1:PermissionDenied:64"),
+    ];
+    for (d, e) in must_rsp {
+        ops.push(Op::DecMust(false, d.as_bytes().to_vec(), Some(e.to_string())));
     }
     // deeper than serde_json's recursion limit, inside a skipped member
     let deep = format!(r#"{{"request_id":1,"x":{}{},"message":{{"Ok":""}}}}"#, "[".repeat(1000), "]".repeat(1000));
